@@ -6,17 +6,20 @@ package main
 // header = a client without a valid address), udp/tcp/gnet clients are 127.0.0.1 (a labelled range in some markers).
 //
 //   case:   <id> mode=<slow|fast|neg|fail> up=<u|t> ecs=<0|1> mk=<hex of the marker file text>
-//                hit=<cl+cl..> later=<cl+cl..> oth=<fresh|absent>:<cl+cl..>,..|- delay=<ms> tag=<hex label> stagger=<ms>
+//                hit=<cl+cl..> later=<cl+cl..> oth=<fresh|absent|window>:<cl+cl..>,..|- delay=<ms> tag=<hex label> stagger=<ms>
 //           cl = <listener>@<address|->   (address "-" on a DoH listener = no client-address header)
 //   hit   : clients of ONE group G that hit G's entry inside its last quarter, all at once
 //   later : other clients of G (other addresses of the same group) that ask after the refresh
 //   oth   : per other group X (each a different group, none of them G): X has its own fresh entry for the same
-//           question (placed by a real miss of its first client) or no entry; its clients are active meanwhile
+//           question (placed by a real miss of its first client) or no entry; its clients are active meanwhile.
+//           "window" (mode slow only): X's own entry is inside its last quarter too and X's clients hit it in the same
+//           burst — X's own refresh runs at the same time (one per (question, group)) and renews X's entry
 //
 //   result: timing=ok setup=<fresh groups whose first query was answered by the upstream>/<fresh groups> setup_up=<queries>
 //             ans=<G hits answered with G's cached answer>/<n> oth=<hits of fresh groups answered with their own>/<m>
 //             [slow: up_mid=<refresh queries so far> infl_mid=<in-flight set>]
-//             ecs=<own|none|foreign|mixed>   (ECS option of the refresh query: subnet of one of the hitting clients / none / else)
+//             ecs=<own|none|foreign per refresh query, sorted, joined by '+'>   (ECS option of the refresh query: subnet of
+//                  one of the clients that hit inside the window / none / anything else)
 //             infl_end=<in-flight after the refresh> up_end=<refresh queries>
 //             slow,fast: later=<answer:ttl class per later client> up_after=<queries in total>
 //             neg,fail : later=<first: old answer, aged; then renewed> up2=<queries of the second refresh>
@@ -33,6 +36,7 @@ import (
 	"encoding/binary"
 	"fmt"
 	"net/netip"
+	"sort"
 	"strings"
 	"sync"
 	"sync/atomic"
@@ -171,8 +175,8 @@ func c19GTtl(h c19Hit) string {
 }
 
 type c19Other struct {
-	fresh   bool
-	clients []c19Client
+	fresh, window bool
+	clients       []c19Client
 }
 
 func runPrefetchGrp(id string, parts []string) string {
@@ -191,10 +195,10 @@ func runPrefetchGrp(id string, parts []string) string {
 		for _, o := range strings.Split(f["oth"], ",") {
 			st, cl, ok := strings.Cut(o, ":")
 			cs, ok3 := c19ParseClients(cl)
-			if !ok || !ok3 || len(cs) == 0 || (st != "fresh" && st != "absent") {
+			if !ok || !ok3 || len(cs) == 0 || (st != "fresh" && st != "absent" && st != "window") || (st == "window" && mode != "slow") {
 				return "HARNESS-ERROR bad case"
 			}
-			others = append(others, c19Other{st == "fresh", cs})
+			others = append(others, c19Other{st == "fresh", st == "window", cs})
 		}
 	}
 	c19Quiet.Do(router.VerifQuiet)
@@ -242,6 +246,14 @@ func runPrefetchGrp(id string, parts []string) string {
 		-(life-20)*time.Second, 20*time.Second); err != nil {
 		return "HARNESS-ERROR store: " + strings.ReplaceAll(err.Error(), " ", "_")
 	}
+	for _, o := range others { // groups whose own entry (answer C) is inside its last quarter as well
+		if o.window {
+			if _, err := env.R.VerifC19StoreAtFor(hx.BuildReply(q, false, 0, [4]byte{10, 0, 0, 9}, life), o.clients[0].netip(),
+				-(life-20)*time.Second, 20*time.Second); err != nil {
+				return "HARNESS-ERROR store: " + strings.ReplaceAll(err.Error(), " ", "_")
+			}
+		}
+	}
 
 	// ---- the burst: every hitting client of G at once, the clients of the other groups as well (those with an
 	// entry ask the same question, the others a background name)
@@ -262,8 +274,9 @@ func runPrefetchGrp(id string, parts []string) string {
 				wg.Add(1)
 				go func(o c19Other, c c19Client) {
 					defer wg.Done()
-					if o.fresh {
-						if c19GMark(c.query(env, q, nextID())) == "C" {
+					if o.fresh || o.window {
+						// its own entry; a "window" group's own refresh turns it into B at some point
+						if m := c19GMark(c.query(env, q, nextID())); m == "C" || (o.window && freshOK == nil && m == "B") {
 							if freshOK != nil {
 								freshOK.Add(1)
 							}
@@ -298,7 +311,7 @@ func runPrefetchGrp(id string, parts []string) string {
 		}
 	}
 	for _, o := range others {
-		if o.fresh {
+		if o.fresh || o.window {
 			mFresh += len(o.clients)
 		}
 	}
@@ -327,7 +340,14 @@ func runPrefetchGrp(id string, parts []string) string {
 	for _, c := range hit {
 		want[c19EcsWant(c.netip())] = true
 	}
-	ecs := ""
+	for _, o := range others {
+		if o.window {
+			for _, c := range o.clients {
+				want[c19EcsWant(c.netip())] = true
+			}
+		}
+	}
+	var ecs []string
 	for _, u := range ups {
 		e := c19EcsOf(u.Wire)
 		cls := "foreign"
@@ -337,16 +357,19 @@ func runPrefetchGrp(id string, parts []string) string {
 		case want[e]:
 			cls = "own"
 		}
-		if ecs == "" {
-			ecs = cls
-		} else if ecs != cls {
-			ecs = "mixed"
-		}
+		ecs = append(ecs, cls)
 	}
-	if ecs == "" {
-		ecs = "noquery"
+	sort.Strings(ecs)
+	upEnd := len(ups)
+	if mode == "fail" && upEnd >= 2 && upEnd <= 8 && ecs[0] == ecs[upEnd-1] {
+		// ONE failing exchange over re-used TCP connections is written again by the transport on every stale idle
+		// connection it picks (up to 6 retries + 1, C14): still one flight, asked on behalf of one client
+		ecs, upEnd = ecs[:1], 1
 	}
-	out += fmt.Sprintf(" ecs=%s infl_end=%d up_end=%d", ecs, inflEnd, len(ups))
+	if len(ecs) == 0 {
+		ecs = []string{"noquery"}
+	}
+	out += fmt.Sprintf(" ecs=%s infl_end=%d up_end=%d", strings.Join(ecs, "+"), inflEnd, upEnd)
 
 	// ---- later hits of the same group
 	fmtHit := func(h c19Hit) string { return c19GMark(h) + ":" + c19GTtl(h) }
